@@ -278,6 +278,34 @@ Definition boot (c : config) (st : option status) (id0 : Z) (rs : list region) (
     end
   else s0.
 
+(* ---------- a new ModeManager on the same storage (leader change): NewReplicationModeManager / loadDRAutoSync ----------
+   The cursor, the progress figures and the clock start afresh; the allocator, the storage and the files members hold are the cluster's.
+   In dr-auto-sync mode the stored status is loaded: a FAILED load fails the creation (nothing is touched: no id, no file, no save,
+   the previous manager stays); a stored status is served as it is; only when the load succeeded and found nothing the manager
+   initialises itself by the ordinary switch to sync (whose save can fail: then the creation fails too). *)
+Definition fresh_manager (s : state) (sv : option status) : state :=
+  State (cfg s) sv (stored s) (files s) (next_id s) "" 0 0 0 0 (regions s) (stores s) (bsz s)
+        (Clock (c_now (clk s)) (c_now (clk s)) []) []
+        (match sv with Some x => if existsb (Z.eqb (st_id x)) (used s) then used s else st_id x :: used s | None => used s end).
+Definition restart (s : state) (load_fails : bool) (f : fault) : state * res :=
+  if negb (cf_dr (cfg s)) then (fresh_manager s None, ROk)
+  else if load_fails then (s, RErr)
+  else match stored s with
+       | Some x => (fresh_manager s (Some x), ROk)
+       | None =>
+           let '(s1, ok) := switch (fresh_manager s None) Sync f 0 in
+           if ok then (s1, ROk)
+           else (* the creation failed after AllocID / the file / possibly the save: those effects stay, the previous manager too *)
+             (State (cfg s) (served s) (stored s1) (files s1) (next_id s1) (cur_key s) (cur_cnt s) (tot s) (synced s) (dr_total s)
+                    (regions s) (stores s) (bsz s) (clk s) (chain s) (used s), RErr)
+       end.
+(* histories with restarts *)
+Inductive rop := ROp (o : op) | RRestart (load_fails : bool) (f : fault).
+Definition run_rcmd (s : state) (h : rop) : state * res :=
+  match h with ROp o => run_cmd s o | RRestart lf f => restart s lf f end.
+Definition run_rop (s : state) (h : rop) : state * obs :=
+  let '(s', r) := run_rcmd s h in (s', snapshot s s' r).
+
 (* ---------- equality of observations ---------- *)
 Definition status_eqb (a b : status) : bool := dstate_eqb (st_state a) (st_state b) && (st_id a =? st_id b).
 Definition res_eqb (a b : res) : bool := match a, b with ROk, ROk | RErr, RErr => true | _, _ => false end.
@@ -287,13 +315,13 @@ Definition obs_eqb (a b : obs) : bool :=
   && String.eqb (o_key a) (o_key b) && (o_cnt a =? o_cnt b) && (o_tot a =? o_tot b) && (o_synced a =? o_synced b).
 
 Record bootp := Boot { b_cfg : config; b_st : option status; b_id0 : Z; b_regions : list region; b_stores : list store; b_batch : nat }.
-Definition case := (bootp * list op * list obs)%type.
+Definition case := (bootp * list rop * list obs)%type.
 Definition boot_of (b : bootp) : state := boot (b_cfg b) (b_st b) (b_id0 b) (b_regions b) (b_stores b) (b_batch b).
 Definition boot_obs (b : bootp) : obs :=
   let s := boot_of b in
   Obs ROk (cf_dr (cfg s)) (if cf_dr (cfg s) then served s else None) (stored s) (rev (files s)) (cur_key s) (cur_cnt s) 0 0.
 Definition model_obs (c : case) : list obs :=
-  let '(b, ops, _) := c in boot_obs b :: run run_op (boot_of b) ops.
+  let '(b, ops, _) := c in boot_obs b :: run run_rop (boot_of b) ops.
 Definition check_case (c : case) : list (nat * option obs * option obs) :=
   let '(_, _, got) := c in diff_at obs_eqb 0 (model_obs c) got.
 Fixpoint mismatches_from (n : nat) (cs : list case) :=
@@ -409,9 +437,37 @@ Definition mon_step (m : mon) (o : op) (prev cur : obs) : mon * list string :=
        ((match cs with Some x => [st_id x] | None => [] end) ++ map st_id (o_files cur) ++ m_ids m)%list
        (clock_step (m_clk m) o), v).
 
-Fixpoint mon_run (m : mon) (ops : list op) (prev : obs) (obs_l : list obs) : list string :=
+(* a new manager on the same storage *)
+Definition mon_restart (m : mon) (load_fails : bool) (prev cur : obs) : mon * list string :=
+  let dr := cf_dr (m_cfg m) in
+  let same_stored := opt_eqb status_eqb (o_stored prev) (o_stored cur) in
+  let v :=
+    (if dr && load_fails then
+       (* "a storage failure leaves served and persisted state unchanged": the creation must fail and touch nothing *)
+       (if res_eqb (o_res cur) ROk then ["C19:failed-status-load-treated-as-nothing-persisted"] else []) ++
+       (if same_stored && match o_files cur with [] => true | _ => false end then [] else ["C19:failed-load-changed-persisted-state"]) ++
+       (match o_served cur, o_stored prev with
+        | Some x, Some y => if negb (opt_eqb status_eqb (o_served prev) (o_served cur))
+                               && dstate_eqb (st_state x) Sync && negb (dstate_eqb (st_state y) Sync)
+                            then ["C19:sync-declared-without-full-scan"] else []
+        | _, _ => []
+        end)
+     else if dr && res_eqb (o_res cur) ROk then
+       (* the persisted state is what the new manager serves; nothing is allocated or written for it *)
+       match o_stored prev with
+       | Some y => if opt_eqb status_eqb (o_served cur) (Some y) && same_stored && match o_files cur with [] => true | _ => false end
+                   then [] else ["C19:new-leader-does-not-serve-the-persisted-state"]
+       | None => []
+       end
+     else [])%list in
+  (Mon (m_cfg m) (m_stores m) (m_regions m)
+       (if res_eqb (o_res cur) ROk then 0 else m_gid m) (if res_eqb (o_res cur) ROk then [] else m_good m)   (* a failed creation leaves the previous manager (and its scan) in place *)
+       ((match o_served cur with Some x => [st_id x] | None => [] end) ++ map st_id (o_files cur) ++ m_ids m)%list
+       (if res_eqb (o_res cur) ROk then Clock (c_now (m_clk m)) (c_now (m_clk m)) [] else m_clk m), v).
+Fixpoint mon_run (m : mon) (ops : list rop) (prev : obs) (obs_l : list obs) : list string :=
   match ops, obs_l with
-  | o :: r, b :: br => let '(m', v) := mon_step m o prev b in (v ++ mon_run m' r b br)%list
+  | ROp o :: r, b :: br => let '(m', v) := mon_step m o prev b in (v ++ mon_run m' r b br)%list
+  | RRestart lf _ :: r, b :: br => let '(m', v) := mon_restart m lf prev b in (v ++ mon_run m' r b br)%list
   | _, _ => []
   end.
 Definition monitor (c : case) : list string :=
